@@ -2,7 +2,9 @@ package props
 
 import (
 	"fmt"
+	"go/constant"
 	"go/token"
+	"go/types"
 	"strings"
 
 	"golang.org/x/tools/go/ssa"
@@ -2081,4 +2083,276 @@ func reportedVersionGroup(c *Ctx, rule string) {
 		}
 		c.Decide(ok, rule, key(fn, "records:found-version"), fn.Pos(), 1, "the version found by the index is recorded in the entry", "memTable.Get no longer records the version found by the index in Entry.Version")
 	}
+}
+
+// manifestAppendRollbackGroup: an edit batch whose append or sync fails is reported as failed and
+// is not applied to the in-memory version, so nothing of it may stay in the manifest file: a
+// complete record would be replayed by the next Open, a torn one swallows every edit appended
+// after it.  From the failure edge of the manifest Write and of the Sync in logEditsLocked,
+// every path to a return passes a Truncate of the manifest (directly or in a helper).
+func manifestAppendRollbackGroup(c *Ctx, rule string) {
+	c.Rule(rule, "manifest.Manager.logEditsLocked: the failure edges of the manifest append (Write) and of its Sync reach a return only through a Truncate of the manifest file back to the offset at which the append started (directly or in a helper)")
+	fn := c.Fn("manifest", "Manager.logEditsLocked")
+	if fn == nil {
+		return
+	}
+	onManifest := func(ci ssa.CallInstruction) bool {
+		cc := ci.Common()
+		var recv ssa.Value
+		if cc.IsInvoke() {
+			recv = cc.Value
+		} else if len(cc.Args) > 0 {
+			recv = cc.Args[0]
+		}
+		return recv != nil && isFieldLoad(recv, "manifest.Manager", "manifest")
+	}
+	truncM := Named("(vfs.File).Truncate")
+	truncs := effectSites(c, fn, func(ci ssa.CallInstruction) bool { return truncM(ci.Common()) }, 2)
+	var steps []ssa.CallInstruction
+	for _, ci := range Calls(fn, false, Named("(vfs.File).Write", "(io.Writer).Write", "(vfs.File).Sync")) {
+		if onManifest(ci) {
+			steps = append(steps, ci)
+		}
+	}
+	if len(steps) < 2 {
+		c.Fail(rule, key(fn, "has:manifest-append+sync"), fn.Pos(), len(steps)+1, "expected the manifest Write and Sync in logEditsLocked, found %d call(s)", len(steps))
+		return
+	}
+	for i, st := range steps {
+		name := CalleeObj(st.Common()).Name()
+		k := key(fn, fmt.Sprintf("%s[%d]#failure→Truncate→return", name, i+1))
+		ev := ErrResult(st)
+		if ev == nil {
+			c.Fail(rule, k, st.Pos(), 1, "the error of the manifest %s is discarded", name)
+			continue
+		}
+		bad, n := false, 0
+		edges := NilEdges(fn, FlowSet(ev))
+		for _, e := range edges {
+			blk := e.NonNil[1]
+			if len(blk.Instrs) == 0 {
+				continue
+			}
+			for _, r := range Returns(fn) {
+				reach, m := reachFromBlock(fn, blk, r, instrs(truncs))
+				n += m
+				if reach {
+					bad = true
+				}
+			}
+		}
+		if len(edges) == 0 {
+			c.Fail(rule, k, st.Pos(), 1, "the error of the manifest %s is never tested", name)
+			continue
+		}
+		c.Decide(!bad, rule, k, st.Pos(), n+len(truncs), "a failed "+name+" cuts the manifest back before the error is returned",
+			"a failed manifest "+name+" returns the error (the edits are not applied in memory) but leaves the appended bytes in the file: a complete record is replayed by the next Open although it was reported as failed, a torn one swallows every later edit – after a failed compaction edit the next restart deletes the old tables as unreferenced and the new ones are already gone")
+	}
+}
+
+// snapshotLosslessGroup: a manifest rewrite replaces the edit history by a snapshot of the
+// in-memory version, so the records the snapshot writes for a ValueLogs entry must carry every
+// field of ValueLogMeta: an edit type whose encoding (writeEdit's case for it) leaves a field
+// out lets that field change on reload.
+func snapshotLosslessGroup(c *Ctx, rule string) {
+	c.Rule(rule, "manifest writeSnapshot: every edit written for an entry of Version.ValueLogs uses an edit type whose writeEdit case encodes all fields of ValueLogMeta (Bucket, FileID, Offset, Valid)")
+	ws := c.FnOpt("manifest", "Manager.writeSnapshot")
+	if ws == nil {
+		ws = c.Fn("manifest", "writeSnapshot")
+	}
+	we := c.Fn("manifest", "writeEdit")
+	if ws == nil || we == nil {
+		return
+	}
+	consts := enumConsts(c, "manifest", "EditType")
+	nameOf := map[int64]string{}
+	for n, v := range consts {
+		nameOf[v] = n
+	}
+	// fields of ValueLogMeta read under writeEdit's case for type t
+	encoded := func(t int64) map[string]bool {
+		out := map[string]bool{}
+		for _, b := range we.Blocks {
+			ifi := ifOf(b)
+			if ifi == nil {
+				continue
+			}
+			bo, ok := ifi.Cond.(*ssa.BinOp)
+			if !ok || bo.Op != token.EQL {
+				continue
+			}
+			k, ok := bo.Y.(*ssa.Const)
+			if !ok || k.Value == nil || TypeName(bo.X.Type()) != "manifest.EditType" {
+				continue
+			}
+			if v, ok := constant.Int64Val(constant.ToInt(k.Value)); !ok || v != t {
+				continue
+			}
+			for _, d := range we.Blocks {
+				if !EdgeDominates(b, b.Succs[0], d) {
+					continue
+				}
+				for _, in := range d.Instrs {
+					if v, ok := in.(ssa.Value); ok {
+						if o, f, ok := FieldOf(v); ok && o == "manifest.ValueLogMeta" {
+							out[f] = true
+						}
+					}
+				}
+			}
+		}
+		return out
+	}
+	var fromValueLogs func(v ssa.Value, depth int) bool
+	fromValueLogs = func(v ssa.Value, depth int) bool {
+		if depth <= 0 || v == nil {
+			return false
+		}
+		switch x := v.(type) {
+		case *ssa.Lookup:
+			return isFieldLoad(x.X, "manifest.Version", "ValueLogs") || fromValueLogs(x.X, depth-1)
+		case *ssa.Extract:
+			return fromValueLogs(x.Tuple, depth-1)
+		case *ssa.UnOp:
+			return fromValueLogs(x.X, depth-1)
+		case *ssa.FieldAddr:
+			_, f, _ := FieldOf(x)
+			return f == "ValueLogs"
+		case *ssa.Phi:
+			for _, e := range x.Edges {
+				if fromValueLogs(e, depth-1) {
+					return true
+				}
+			}
+		case *ssa.Alloc:
+			if x.Referrers() != nil {
+				for _, r := range *x.Referrers() {
+					if st, ok := r.(*ssa.Store); ok && st.Addr == x && fromValueLogs(st.Val, depth-1) {
+						return true
+					}
+				}
+			}
+		}
+		return false
+	}
+	var typeConsts func(v ssa.Value, depth int) []int64
+	typeConsts = func(v ssa.Value, depth int) []int64 {
+		if depth <= 0 {
+			return nil
+		}
+		switch x := v.(type) {
+		case *ssa.Const:
+			if x.Value != nil {
+				if k, ok := constant.Int64Val(constant.ToInt(x.Value)); ok {
+					return []int64{k}
+				}
+			}
+		case *ssa.Phi:
+			var out []int64
+			for _, e := range x.Edges {
+				out = append(out, typeConsts(e, depth-1)...)
+			}
+			return out
+		case *ssa.Convert:
+			return typeConsts(x.X, depth-1)
+		}
+		return nil
+	}
+	n := 0
+	AllInstrs(ws, false, func(in ssa.Instruction) {
+		a, ok := in.(*ssa.Alloc)
+		if !ok {
+			return
+		}
+		if pt, isP := a.Type().Underlying().(*types.Pointer); !isP || TypeName(pt.Elem()) != "manifest.Edit" {
+			return
+		}
+		var types_ []int64
+		payload := false
+		for _, r := range *a.Referrers() {
+			fa, ok := r.(*ssa.FieldAddr)
+			if !ok || fa.Referrers() == nil {
+				continue
+			}
+			_, f, _ := FieldOf(fa)
+			for _, rr := range *fa.Referrers() {
+				st, ok := rr.(*ssa.Store)
+				if !ok || st.Addr != fa {
+					continue
+				}
+				switch f {
+				case "Type":
+					types_ = append(types_, typeConsts(st.Val, 3)...)
+				case "ValueLog":
+					if fromValueLogs(st.Val, 6) {
+						payload = true
+					}
+				}
+			}
+		}
+		if !payload {
+			return
+		}
+		for _, t := range types_ {
+			n++
+			enc := encoded(t)
+			var missing []string
+			for _, f := range []string{"Bucket", "FileID", "Offset", "Valid"} {
+				if !enc[f] {
+					missing = append(missing, f)
+				}
+			}
+			c.Decide(len(missing) == 0, rule, key(ws, "ValueLogs-entry→"+nameOf[t]), a.Pos(), len(enc)+1, nameOf[t]+" carries every field of the entry",
+				fmt.Sprintf("the snapshot writes a ValueLogs entry as %s, whose record does not carry %v: after a rewrite the reloaded entry differs from the in-memory one (an invalidated segment loses its offset)", nameOf[t], missing))
+		}
+	})
+	if n == 0 {
+		c.Fail(rule, key(ws, "has:ValueLogs-edits"), ws.Pos(), 1, "no edit built from Version.ValueLogs found in writeSnapshot")
+	}
+}
+
+// manifestOpenersVerifyGroup: Manager.replay treats the io.ErrUnexpectedEOF of a record that was
+// being appended when the process died as fatal; only manifest.Verify cuts such a torn tail.
+// Every opener of a manifest directory therefore has to run Verify first (in the same function,
+// or – for the engine – in DB.runRecoveryChecks, which NoKV.Open runs before lsm.NewLSM).
+func manifestOpenersVerifyGroup(c *Ctx, rule string) {
+	c.Rule(rule, "every non-test caller of manifest.Open is preceded by manifest.Verify on the same directory: in the same function, or (lsm.levelManager.loadManifest) by DB.runRecoveryChecks which NoKV.Open runs before lsm.NewLSM; otherwise a crash inside an edit append leaves a directory that caller cannot open")
+	openM, verM := Named("manifest.Open"), Named("manifest.Verify")
+	n := 0
+	for _, f := range c.P.ModFuncs {
+		if strings.HasSuffix(FuncPkgPath(f), "/manifest") {
+			continue
+		}
+		opens := Calls(f, false, openM)
+		if len(opens) == 0 {
+			continue
+		}
+		root := Root(f)
+		for i, o := range opens {
+			n++
+			k := fmt.Sprintf("%s#manifest.Open[%d]<-manifest.Verify", FuncName(root), i+1)
+			if ok, m := MustPrecede(f, o.(ssa.Instruction), instrs(Calls(f, false, verM))); ok {
+				c.Pass(rule, k, o.Pos(), m, "Verify runs first in the same function")
+				continue
+			}
+			if strings.HasSuffix(FuncPkgPath(f), "/lsm") {
+				// the engine: NoKV.Open → runRecoveryChecks (Verify) before NewLSM
+				good := false
+				if op := c.Fn("", "Open"); op != nil {
+					rc := Calls(op, false, Named("NoKV.(*DB).runRecoveryChecks"))
+					nl := Calls(op, false, Named("lsm.NewLSM"))
+					if len(rc) > 0 && len(nl) > 0 {
+						pre, _ := MustPrecede(op, nl[0].(ssa.Instruction), instrs(rc))
+						if rcf := c.Fn("", "DB.runRecoveryChecks"); rcf != nil && pre && len(Calls(rcf, false, verM)) > 0 {
+							good = true
+						}
+					}
+				}
+				c.Decide(good, rule, k, o.Pos(), 3, "the engine verifies the manifest (runRecoveryChecks) before NewLSM opens it", "the engine opens its manifest without a preceding manifest.Verify")
+				continue
+			}
+			c.Fail(rule, k, o.Pos(), 2, "%s opens a manifest directory without running manifest.Verify first: a record torn by a crash makes manifest.Open fail with unexpected EOF instead of opening to the acknowledged prefix", FuncName(root))
+		}
+	}
+	c.Floor(rule, n, 3, "callers of manifest.Open")
 }
